@@ -10,6 +10,7 @@ import NcVerif.Spec.Ops
 import NcVerif.Proofs.XmlText
 import NcVerif.Proofs.XmlDoc
 import NcVerif.Proofs.Builders
+import NcVerif.Proofs.Retrieve
 namespace NcVerif.C07
 open NcVerif NcVerif.Gen NcVerif.OpsSpec NcVerif.XmlText NcVerif.XmlDoc
 
@@ -150,6 +151,43 @@ example : refusal (build (fun _ => true) (.edit (.text "x".toList) "running".toL
   decide +kernel
 example : refusal (build (fun _ => true) (.lock "bad name".toList)) = some .valueError := by decide +kernel
 end Builders
+
+/-! ## The retrieval builders (Model/Retrieve: get, get-config with filter / with-defaults, dispatch, create-subscription) -/
+
+section Retrieve
+open NcVerif.Builders NcVerif.BuildersP NcVerif.Retrieve NcVerif.RetrieveP
+
+/-- A retrieval request that is built is ONE well-formed `<rpc>` which the peer reads back exactly as built — the XPath
+    expression (an attribute value), the caller's subtree filter, the with-defaults mode, stream name and times included. -/
+theorem retrieval_request_roundtrip (caps : Caps.Caps) (call : Retrieve.Call) (t : XNode) (mid : Str)
+    (hf : FilterGood (filterOf call)) (h : Retrieve.build caps call = .ok t) :
+    parseDoc (serialize (rpcTree "nc:".toList mid t)) = some (rpcTree "nc:".toList mid t) ∧
+    attrOf "message-id".toList (rpcTree "nc:".toList mid t) = some mid := by
+  obtain ⟨⟨hw, hnt⟩, _⟩ := RetrieveP.build_ok caps call t hf h
+  cases t with
+  | text _ => simp [XmlDocP.isText] at hnt
+  | elem n a cs => exact XmlDocP.rpc_roundtrip "nc:".toList mid n a cs (Or.inl rfl) hw
+
+/-- An XPath filter is ONE empty `<filter type="xpath">` whose `select` attribute is the caller's expression, unaltered;
+    a filter type other than xpath / subtree never yields a request. -/
+theorem xpath_filter_faithful (sel : Str) (l : List XNode) (h : filterPart (some (.xpath sel)) = .ok l) :
+    l = [.elem (nc "filter") [(Builders.s "type", Builders.s "xpath"), (Builders.s "select", sel)] []] := by
+  simp only [filterPart] at h
+  split at h
+  · simp only [pure, Except.pure] at h; injection h with h; exact h.symm
+  · cases h
+
+theorem unknown_filter_type_refused (ty : Str) : filterPart (some (.other ty)) = .error .operationError := rfl
+
+example : builtText (Retrieve.build (Caps.mk ["urn:ietf:params:netconf:capability:with-defaults:1.0?basic-mode=explicit&also-supported=report-all,trim".toList])
+      (.get (some (.xpath "/a[b=\"x\"]".toList)) (some "trim".toList)))
+    = some "<nc:get><nc:filter type=\"xpath\" select=\"/a[b=&quot;x&quot;]\"/><ns0:with-defaults xmlns:ns0=\"urn:ietf:params:xml:ns:yang:ietf-netconf-with-defaults\">trim</ns0:with-defaults></nc:get>".toList := by
+  decide +kernel
+example : builtText (Retrieve.build (Caps.mk ["urn:ietf:params:netconf:capability:notification:1.0".toList])
+      (.subscribe none (some "NETCONF".toList) (some "t0".toList) (some "t1".toList)))
+    = some "<ns0:create-subscription xmlns:ns0=\"urn:ietf:params:xml:ns:netconf:notification:1.0\"><ns0:stream>NETCONF</ns0:stream><ns0:startTime>t0</ns0:startTime><ns0:stopTime>t1</ns0:stopTime></ns0:create-subscription>".toList := by
+  decide +kernel
+end Retrieve
 
 /-! Non-vacuity -/
 example : serialize (.elem "g".toList [] [.elem "f".toList [("s".toList, "a\"<".toList)] [.text "</f><k/>".toList]])
